@@ -222,13 +222,13 @@ func (g *gen) visibleFrom(mi int, m *Mod) visible {
 	var v visible
 	addMod := func(x *Mod, foreign bool) {
 		for _, td := range x.Typedefs {
-			v.typedefs = append(v.typedefs, Ref{x.Name, td.Name})
+			v.typedefs = append(v.typedefs, Ref{Mod: x.Name, Name: td.Name})
 		}
 		for _, gr := range x.Groupings {
-			v.groupings = append(v.groupings, Ref{x.Name, gr.Name})
+			v.groupings = append(v.groupings, Ref{Mod: x.Name, Name: gr.Name})
 		}
 		for _, id := range x.Identities {
-			v.idents = append(v.idents, Ref{x.Name, id.Name})
+			v.idents = append(v.idents, Ref{Mod: x.Name, Name: id.Name})
 		}
 	}
 	addMod(m, false)
@@ -244,10 +244,10 @@ func (g *gen) visibleFrom(mi int, m *Mod) visible {
 		addMod(x, true)
 		for _, sub := range g.subsOf[x.Name] {
 			for _, gr := range sub.Groupings {
-				v.groupings = append(v.groupings, Ref{sub.Name, gr.Name})
+				v.groupings = append(v.groupings, Ref{Mod: sub.Name, Name: gr.Name})
 			}
 			for _, id := range sub.Identities {
-				v.idents = append(v.idents, Ref{sub.Name, id.Name})
+				v.idents = append(v.idents, Ref{Mod: sub.Name, Name: id.Name})
 			}
 		}
 	}
@@ -263,7 +263,7 @@ func (g *gen) visibleFrom(mi int, m *Mod) visible {
 			}
 			if !included {
 				for _, id := range sub.Identities {
-					v.idents = append(v.idents, Ref{sub.Name, id.Name})
+					v.idents = append(v.idents, Ref{Mod: sub.Name, Name: id.Name})
 				}
 			}
 		}
@@ -300,9 +300,9 @@ func (g *gen) defs(mi int, m *Mod) {
 	}
 	if g.p.Extras && t.Chance(1, 8) {
 		// a string typedef with three patterns and two types refining it with one more each
-		base := &Typedef{Name: g.id("t"), Type: &Type{Ref: Ref{"", "string"}, Patterns: []string{"a.*", "b.*", ".*c"}}}
-		d1 := &Typedef{Name: g.id("t"), Type: &Type{Ref: Ref{m.Name, base.Name}, Patterns: []string{g.id("q") + ".*"}}}
-		d2 := &Typedef{Name: g.id("t"), Type: &Type{Ref: Ref{m.Name, base.Name}, Patterns: []string{g.id("q") + ".*"}}}
+		base := &Typedef{Name: g.id("t"), Type: &Type{Ref: Ref{Mod: "", Name: "string"}, Patterns: []string{"a.*", "b.*", ".*c"}}}
+		d1 := &Typedef{Name: g.id("t"), Type: &Type{Ref: Ref{Mod: m.Name, Name: base.Name}, Patterns: []string{g.id("q") + ".*"}}}
+		d2 := &Typedef{Name: g.id("t"), Type: &Type{Ref: Ref{Mod: m.Name, Name: base.Name}, Patterns: []string{g.id("q") + ".*"}}}
 		m.Typedefs = append(m.Typedefs, base, d1, d2)
 	}
 	for k := g.rng(g.p.Groupings); k > 0; k-- {
@@ -313,14 +313,14 @@ func (g *gen) defs(mi int, m *Mod) {
 		}
 		sc := &scope{v: v}
 		for _, td := range gr.Typedefs {
-			sc.localTypedefs = append(sc.localTypedefs, Ref{m.Name, td.Name})
+			sc.localTypedefs = append(sc.localTypedefs, Ref{Mod: m.Name, Name: td.Name})
 		}
 		if t.Chance(1, 5) {
 			inner := &Grouping{Name: g.id("g")}
 			inner.Body = g.body(mi, m, sc, "grouping", g.p.Depth-1, t.Range(1, 2))
 			gr.Groupings = append(gr.Groupings, inner)
-			g.pendingGroupings[Ref{m.Name, inner.Name}] = inner
-			sc.localGroupings = append(sc.localGroupings, Ref{m.Name, inner.Name})
+			g.pendingGroupings[Ref{Mod: m.Name, Name: inner.Name}] = inner
+			sc.localGroupings = append(sc.localGroupings, Ref{Mod: m.Name, Name: inner.Name})
 		}
 		gr.Body = g.body(mi, m, sc, "grouping", g.p.Depth, t.Range(1, 4))
 		m.Groupings = append(m.Groupings, gr)
@@ -381,12 +381,12 @@ func (g *gen) typ(v visible, sc *scope, depth int) *Type {
 	}
 	switch t.Weighted(w...) {
 	case 0:
-		return &Type{Ref: Ref{"", simpleTypes[t.Intn(len(simpleTypes))]}}
+		return &Type{Ref: Ref{Mod: "", Name: simpleTypes[t.Intn(len(simpleTypes))]}}
 	case 1:
 		lo := t.Range(0, 50)
-		return &Type{Ref: Ref{"", []string{"int32", "uint8", "int64"}[t.Intn(3)]}, Range: fmt.Sprintf("%d..%d", lo, lo+t.Range(0, 60))}
+		return &Type{Ref: Ref{Name: []string{"int32", "uint8", "int64"}[t.Intn(3)]}, Range: fmt.Sprintf("%d..%d", lo, lo+t.Range(0, 60))}
 	case 2:
-		ty := &Type{Ref: Ref{"", "string"}}
+		ty := &Type{Ref: Ref{Mod: "", Name: "string"}}
 		if t.Chance(1, 2) {
 			ty.Length = fmt.Sprintf("%d..%d", t.Range(0, 4), t.Range(5, 40))
 		}
@@ -395,7 +395,7 @@ func (g *gen) typ(v visible, sc *scope, depth int) *Type {
 		}
 		return ty
 	case 3:
-		ty := &Type{Ref: Ref{"", "enumeration"}}
+		ty := &Type{Ref: Ref{Mod: "", Name: "enumeration"}}
 		for k := t.Range(1, 4); k > 0; k-- {
 			e := Enum{Name: g.id("e")}
 			if t.Chance(1, 4) {
@@ -406,38 +406,38 @@ func (g *gen) typ(v visible, sc *scope, depth int) *Type {
 		}
 		return ty
 	case 4:
-		ty := &Type{Ref: Ref{"", "bits"}}
+		ty := &Type{Ref: Ref{Mod: "", Name: "bits"}}
 		for k := t.Range(1, 3); k > 0; k-- {
 			ty.Bits = append(ty.Bits, Enum{Name: g.id("b")})
 		}
 		return ty
 	case 5:
-		ty := &Type{Ref: Ref{"", "union"}}
+		ty := &Type{Ref: Ref{Mod: "", Name: "union"}}
 		kinds := t.Perm(4)
 		for k := 0; k < 2; k++ {
 			switch kinds[k] {
 			case 0:
-				ty.Union = append(ty.Union, &Type{Ref: Ref{"", "string"}})
+				ty.Union = append(ty.Union, &Type{Ref: Ref{Mod: "", Name: "string"}})
 			case 1:
-				ty.Union = append(ty.Union, &Type{Ref: Ref{"", "int32"}})
+				ty.Union = append(ty.Union, &Type{Ref: Ref{Mod: "", Name: "int32"}})
 			case 2:
-				ty.Union = append(ty.Union, &Type{Ref: Ref{"", "boolean"}})
+				ty.Union = append(ty.Union, &Type{Ref: Ref{Mod: "", Name: "boolean"}})
 			case 3:
-				e := &Type{Ref: Ref{"", "enumeration"}}
+				e := &Type{Ref: Ref{Mod: "", Name: "enumeration"}}
 				e.Enums = append(e.Enums, Enum{Name: g.id("e")})
 				ty.Union = append(ty.Union, e)
 			}
 		}
 		return ty
 	case 6:
-		return &Type{Ref: Ref{"", "decimal64"}, FractionDigits: t.Range(1, 18)}
+		return &Type{Ref: Ref{Mod: "", Name: "decimal64"}, FractionDigits: t.Range(1, 18)}
 	case 7:
-		return &Type{Ref: Ref{"", "leafref"}, Path: "../" + g.id("x")}
+		return &Type{Ref: Ref{Mod: "", Name: "leafref"}, Path: "../" + g.id("x")}
 	case 8:
 		return &Type{Ref: tds[t.Intn(len(tds))]}
 	default:
 		b := v.idents[t.Intn(len(v.idents))]
-		return &Type{Ref: Ref{"", "identityref"}, Base: &b}
+		return &Type{Ref: Ref{Mod: "", Name: "identityref"}, Base: &b}
 	}
 }
 
@@ -550,7 +550,7 @@ func (g *gen) body(mi int, m *Mod, sc *scope, where string, depth, n int) []*Nod
 		for _, o := range out {
 			if o.Kind != KUses && o.Kind != KInput && o.Kind != KOutput {
 				if g.wantInvalid(InvDupSibling) {
-					out = append(out, &Node{Kind: KLeaf, Name: o.Name, Type: &Type{Ref: Ref{"", "string"}}})
+					out = append(out, &Node{Kind: KLeaf, Name: o.Name, Type: &Type{Ref: Ref{Mod: "", Name: "string"}}})
 				}
 				break
 			}
@@ -614,7 +614,7 @@ func (g *gen) node(mi int, m *Mod, sc *scope, where string, depth int) *Node {
 		r := refs[t.Intn(len(refs))]
 		n.Uses = &r
 		if g.wantInvalid(InvUnknownGrouping) {
-			n.Uses = &Ref{m.Name, g.id("nosuchgrouping")}
+			n.Uses = &Ref{Mod: m.Name, Name: g.id("nosuchgrouping")}
 		}
 		if g.p.Extras && t.Chance(1, 8) {
 			n.When = "../" + g.id("w")
@@ -627,9 +627,9 @@ func (g *gen) node(mi int, m *Mod, sc *scope, where string, depth int) *Node {
 		n.Name = g.id("l")
 		n.Type = g.typ(sc.v, sc, 0)
 		if g.wantInvalid(InvUnknownType) {
-			n.Type = &Type{Ref: Ref{m.Name, g.id("nosuchtype")}}
+			n.Type = &Type{Ref: Ref{Mod: m.Name, Name: g.id("nosuchtype")}}
 		} else if g.wantInvalid(InvBadRange) {
-			n.Type = &Type{Ref: Ref{"", "int32"}, Range: "10..1"}
+			n.Type = &Type{Ref: Ref{Mod: "", Name: "int32"}, Range: "10..1"}
 		}
 		switch t.Weighted(6, 2, 1) {
 		case 1:
@@ -681,14 +681,24 @@ func (g *gen) node(mi int, m *Mod, sc *scope, where string, depth int) *Node {
 		if t.Chance(1, 8) {
 			td := &Typedef{Name: g.id("t"), Type: g.typ(sc.v, sc, 0)}
 			n.Typedefs = append(n.Typedefs, td)
-			csc.localTypedefs = append(csc.localTypedefs, Ref{m.Name, td.Name})
+			csc.localTypedefs = append(csc.localTypedefs, Ref{Mod: m.Name, Name: td.Name})
 		}
 		if t.Chance(1, 10) && depth > 1 {
-			gr := &Grouping{Name: g.id("g")}
+			// Groupings local to a data node may share their name with a grouping
+			// of a sibling scope (never with one that is visible here: the
+			// nearest definition would shadow it).
+			name := "lg"
+			for _, r := range csc.localGroupings {
+				if r.Name == name {
+					name = g.id("g")
+				}
+			}
+			ref := Ref{Mod: m.Name, Name: name, Scope: n.Name}
+			gr := &Grouping{Name: name}
 			gr.Body = g.body(mi, m, csc, "grouping", depth-2, t.Range(1, 2))
 			n.Groupings = append(n.Groupings, gr)
-			g.pendingGroupings[Ref{m.Name, gr.Name}] = gr
-			csc.localGroupings = append(csc.localGroupings, Ref{m.Name, gr.Name})
+			g.pendingGroupings[ref] = gr
+			csc.localGroupings = append(csc.localGroupings, ref)
 		}
 		n.Kids = g.body(mi, m, csc, kind, depth-1, t.Weighted(1, 3, 3, 2, 1))
 		if kind == KList {
@@ -897,7 +907,7 @@ func (g *gen) augments() {
 			}
 		case g.wantInvalid(InvAugCollisionOwn):
 			if names := sortedKids(tg.x.Kids); len(names) > 0 && tg.x.Kind != KChoice {
-				a.Body = append(a.Body, &Node{Kind: KLeaf, Name: names[t.Intn(len(names))], Type: &Type{Ref: Ref{"", "string"}}})
+				a.Body = append(a.Body, &Node{Kind: KLeaf, Name: names[t.Intn(len(names))], Type: &Type{Ref: Ref{Mod: "", Name: "string"}}})
 				a.Invalid = InvAugCollisionOwn
 			} else {
 				g.invalid--
@@ -924,7 +934,7 @@ func (g *gen) augments() {
 			}
 			if first != "" {
 				om := g.mods[t.Intn(len(g.mods))]
-				om.Augments = append(om.Augments, &Augment{Target: tg.steps, Invalid: InvAugCollision, Body: []*Node{{Kind: KLeaf, Name: first, Type: &Type{Ref: Ref{"", "string"}}}}})
+				om.Augments = append(om.Augments, &Augment{Target: tg.steps, Invalid: InvAugCollision, Body: []*Node{{Kind: KLeaf, Name: first, Type: &Type{Ref: Ref{Mod: "", Name: "string"}}}}})
 			} else {
 				g.invalid--
 				g.injected = g.injected[:len(g.injected)-1]
@@ -1110,9 +1120,9 @@ func (g *gen) deviations() {
 				dv.Kind = "replace"
 				switch {
 				case isLeafy && t.Chance(1, 3):
-					dv.Type = &Type{Ref: Ref{"", []string{"string", "uint8", "boolean", "int64"}[t.Intn(4)]}}
+					dv.Type = &Type{Ref: Ref{Name: []string{"string", "uint8", "boolean", "int64"}[t.Intn(4)]}}
 					if g.wantInvalid(InvDevBadType) {
-						dv.Type = &Type{Ref: Ref{dm.Name, g.id("nosuchtype")}}
+						dv.Type = &Type{Ref: Ref{Mod: dm.Name, Name: g.id("nosuchtype")}}
 						d.Invalid = InvDevBadType
 					}
 				case len(cur.Default) > 0 && cur.Kind != KChoice:
@@ -1210,8 +1220,8 @@ func (g *gen) injectLate() {
 		}
 		for i := range names {
 			nxt := (i + 1) % k
-			use := &Node{Kind: KUses, Uses: &Ref{owners[nxt].Name, names[nxt]}}
-			body := []*Node{{Kind: KLeaf, Name: g.id("l"), Type: &Type{Ref: Ref{"", "string"}}}}
+			use := &Node{Kind: KUses, Uses: &Ref{Mod: owners[nxt].Name, Name: names[nxt]}}
+			body := []*Node{{Kind: KLeaf, Name: g.id("l"), Type: &Type{Ref: Ref{Mod: "", Name: "string"}}}}
 			if t.Chance(1, 3) {
 				body = append(body, &Node{Kind: KContainer, Name: g.id("c"), Kids: []*Node{use}})
 			} else {
@@ -1220,7 +1230,7 @@ func (g *gen) injectLate() {
 			owners[i].Groupings = append(owners[i].Groupings, &Grouping{Name: names[i], Body: body})
 		}
 		if t.Chance(2, 3) {
-			m.Body = append(m.Body, &Node{Kind: KContainer, Name: g.id("c"), Kids: []*Node{{Kind: KUses, Uses: &Ref{owners[0].Name, names[0]}}}})
+			m.Body = append(m.Body, &Node{Kind: KContainer, Name: g.id("c"), Kids: []*Node{{Kind: KUses, Uses: &Ref{Mod: owners[0].Name, Name: names[0]}}}})
 		}
 	}
 	if g.wantInvalid(InvTypedefCycle) {
@@ -1228,11 +1238,11 @@ func (g *gen) injectLate() {
 		if t.Chance(1, 2) {
 			b = a
 		}
-		m.Typedefs = append(m.Typedefs, &Typedef{Name: a, Type: &Type{Ref: Ref{m.Name, b}}})
+		m.Typedefs = append(m.Typedefs, &Typedef{Name: a, Type: &Type{Ref: Ref{Mod: m.Name, Name: b}}})
 		if a != b {
-			m.Typedefs = append(m.Typedefs, &Typedef{Name: b, Type: &Type{Ref: Ref{m.Name, a}}})
+			m.Typedefs = append(m.Typedefs, &Typedef{Name: b, Type: &Type{Ref: Ref{Mod: m.Name, Name: a}}})
 		}
-		m.Body = append(m.Body, &Node{Kind: KLeaf, Name: g.id("l"), Type: &Type{Ref: Ref{m.Name, a}}})
+		m.Body = append(m.Body, &Node{Kind: KLeaf, Name: g.id("l"), Type: &Type{Ref: Ref{Mod: m.Name, Name: a}}})
 	}
 	if g.wantInvalid(InvIdentityCycle) {
 		k := t.Range(1, 3)
@@ -1241,34 +1251,34 @@ func (g *gen) injectLate() {
 			names[i] = g.id("i")
 		}
 		for i := range names {
-			m.Identities = append(m.Identities, &Identity{Name: names[i], Bases: []Ref{{m.Name, names[(i+1)%k]}}})
+			m.Identities = append(m.Identities, &Identity{Name: names[i], Bases: []Ref{{Mod: m.Name, Name: names[(i+1)%k]}}})
 		}
 	}
 	if g.wantInvalid(InvFanoutChain) {
 		depth := t.Range(12, 30)
 		prev := g.id("t")
-		m.Typedefs = append(m.Typedefs, &Typedef{Name: prev, Type: &Type{Ref: Ref{m.Name, g.id("nosuchtype")}}})
+		m.Typedefs = append(m.Typedefs, &Typedef{Name: prev, Type: &Type{Ref: Ref{Mod: m.Name, Name: g.id("nosuchtype")}}})
 		for k := 0; k < depth; k++ {
 			cur := g.id("t")
-			m.Typedefs = append(m.Typedefs, &Typedef{Name: cur, Type: &Type{Ref: Ref{"", "union"}, Union: []*Type{{Ref: Ref{m.Name, prev}}, {Ref: Ref{m.Name, prev}}}}})
+			m.Typedefs = append(m.Typedefs, &Typedef{Name: cur, Type: &Type{Ref: Ref{Mod: "", Name: "union"}, Union: []*Type{{Ref: Ref{Mod: m.Name, Name: prev}}, {Ref: Ref{Mod: m.Name, Name: prev}}}}})
 			prev = cur
 		}
-		m.Body = append(m.Body, &Node{Kind: KLeaf, Name: g.id("l"), Type: &Type{Ref: Ref{m.Name, prev}}})
+		m.Body = append(m.Body, &Node{Kind: KLeaf, Name: g.id("l"), Type: &Type{Ref: Ref{Mod: m.Name, Name: prev}}})
 	}
 	if g.wantInvalid(InvUndefinedBase) {
-		m.Identities = append(m.Identities, &Identity{Name: g.id("i"), Bases: []Ref{{m.Name, g.id("nosuchidentity")}}})
+		m.Identities = append(m.Identities, &Identity{Name: g.id("i"), Bases: []Ref{{Mod: m.Name, Name: g.id("nosuchidentity")}}})
 	}
 	if g.p.OrderTraps && len(g.mods) > 1 && t.Chance(1, 2) {
 		// the same identity name in two modules, both derived from one base
 		var bases []Ref
 		for _, x := range g.mods[:1] {
 			for _, id := range x.Identities {
-				bases = append(bases, Ref{x.Name, id.Name})
+				bases = append(bases, Ref{Mod: x.Name, Name: id.Name})
 			}
 		}
 		if len(bases) == 0 {
 			g.mods[0].Identities = append(g.mods[0].Identities, &Identity{Name: g.id("i")})
-			bases = append(bases, Ref{g.mods[0].Name, g.mods[0].Identities[len(g.mods[0].Identities)-1].Name})
+			bases = append(bases, Ref{Mod: g.mods[0].Name, Name: g.mods[0].Identities[len(g.mods[0].Identities)-1].Name})
 		}
 		b := bases[t.Intn(len(bases))]
 		name := g.id("same")
@@ -1286,14 +1296,14 @@ func (g *gen) injectLate() {
 		// means different identities in different texts
 		for _, x := range holders {
 			if t.Chance(2, 3) {
-				x.Identities = append(x.Identities, &Identity{Name: g.id("i"), Bases: []Ref{{x.Name, name}}})
+				x.Identities = append(x.Identities, &Identity{Name: g.id("i"), Bases: []Ref{{Mod: x.Name, Name: name}}})
 			}
 		}
 		for _, x := range g.mods {
 			if t.Chance(1, 2) {
 				h := holders[t.Intn(len(holders))]
 				if h != x {
-					x.Identities = append(x.Identities, &Identity{Name: g.id("i"), Bases: []Ref{{h.Name, name}}})
+					x.Identities = append(x.Identities, &Identity{Name: g.id("i"), Bases: []Ref{{Mod: h.Name, Name: name}}})
 				}
 			}
 		}
